@@ -285,7 +285,10 @@ _NEWLINES = st.sampled_from(["\r", "\n", "\r\n", "\r\r", "\n\r", "\r\n\r\n", "\u
                              # constructs after which the tokenizer pushes many characters back (entity-name prefixes that match no entity,
                              # failed markup declarations), followed by something that reports an error on the same line
                              "&CounterClockwiseContourIntegra</x y=1 y=2>", "&DoubleLongLeftRightArro!&#0;", "<a b=\"&NotSquareSupersetEqua\" b=2>", "&NotNestedGreaterGreate;</>",
-                             "&ClockwiseContourIntegr&", "<!DOCTYP", "<!doctyp?>", "<![CDAT", "<!-x>", "<svg><![CDATx"])
+                             "&ClockwiseContourIntegr&", "<!DOCTYP", "<!doctyp?>", "<![CDAT", "<!-x>", "<svg><![CDATx",
+                             # declarations that must not matter once the encoding is certain
+                             "<meta charset=koi8-r>\u00e9", "<meta charset=utf-8>\u0436", "<meta http-equiv=content-type content='text/html; charset=windows-1251'>\u00e9",
+                             "<meta charset=shift_jis>", "<head><meta charset=iso-8859-2>\u0159"])
 
 
 import re
